@@ -17,14 +17,23 @@ from ..shadow import ShimCSR
 from ..eigstubs import sym_matrix, dense_of
 
 
-def add_forces(ctx, p, tag, ncte, ninc):
+def add_forces(ctx, p, tag, ncte, ninc, coincident=False):
+    """coincident: the LAST constant force and every incrementable force act at the position of the first constant force
+    (several loads on one point, other points evaluated in between)"""
     out = []
+    first = None
     for k in range(ncte):
         f = [ctx.V('%s_x%d' % (tag, k)), ctx.V('%s_y%d' % (tag, k)), ctx.V('%s_fx%d' % (tag, k)), ctx.V('%s_fy%d' % (tag, k)), ctx.V('%s_fz%d' % (tag, k))]
+        if first is None:
+            first = f
+        elif coincident and k == ncte - 1 and ncte > 2:
+            f[0], f[1] = first[0], first[1]
         p.add_force(*f, cte=True)
         out.append((f, Sym.lift(1)))
     for k in range(ninc):
         f = [ctx.V('%s_xi%d' % (tag, k)), ctx.V('%s_yi%d' % (tag, k)), ctx.V('%s_fxi%d' % (tag, k)), ctx.V('%s_fyi%d' % (tag, k)), ctx.V('%s_fzi%d' % (tag, k))]
+        if coincident and first is not None:
+            f[0], f[1] = first[0], first[1]
         p.add_force(*f, cte=False)
         out.append((f, 'inc'))
     return out
@@ -40,7 +49,7 @@ def build(cfg, values=None):
         if variant == 'panel':
             model, m, n = cfg['model'], cfg['m'], cfg['n']
             p = ctx.new_panel(model, m, n)
-            forces = add_forces(ctx, p, 'F', cfg['ncte'], cfg['ninc'])
+            forces = add_forces(ctx, p, 'F', cfg['ncte'], cfg['ninc'], cfg.get('coincident', False))
             size0 = 3 * m * n
             off = cfg.get('off', 0)
             fext = p.calc_fext(inc=inc, size=size0 + off + (1 if off else 0), col0=off, silent=True)
@@ -177,6 +186,7 @@ def configs(tier, seed):
         out.append({'variant': 'panel', 'model': model, 'm': 2, 'n': 2, 'ncte': 1, 'ninc': 1, 'group': 'fext:%s' % model})
         out.append({'variant': 'panel', 'model': model, 'm': 3, 'n': 2, 'ncte': 2, 'ninc': 0, 'group': 'fext:%s' % model})
         out.append({'variant': 'panel', 'model': model, 'm': 2, 'n': 3, 'ncte': 0, 'ninc': 2, 'off': 3 + seed % 3, 'group': 'fext-offset:%s' % model})
+        out.append({'variant': 'panel', 'model': model, 'm': 2, 'n': 2, 'ncte': 3, 'ninc': 1, 'coincident': True, 'group': 'fext-coincident-points:%s' % model})
         if not quick:
             out.append({'variant': 'panel', 'model': model, 'm': 3, 'n': 3, 'ncte': 3, 'ninc': 3, 'group': 'fext:%s' % model})
     out.append({'variant': 'assembly', 'panels': [(2, 1, 1, 1), (1, 2, 0, 2), (2, 2, 1, 0)], 'm': 2, 'n': 2, 'group': 'assembly-fext'})
